@@ -204,6 +204,11 @@ func c10Interactive(x *xctx) *violation {
 		if t.Bool(K, 40) {
 			steps = append(steps, c10step{line: genC10Assign(t, sts), assign: true})
 		} else {
+			if t.Bool(K, 12) {
+				// listing commands: their transcript must not depend on history either
+				steps = append(steps, c10step{line: []string{"o", "options", "help", "help granularity", "help sort", "help top", "help sample_index"}[t.Choose(K, 7)]})
+				continue
+			}
 			f := fmt.Sprintf("f%d", i)
 			line, mut := genC10Command(t, f)
 			steps = append(steps, c10step{line: line, mut: mut, file: f})
